@@ -639,6 +639,17 @@ def _v_set_equal(u, v, which, val):
         value.const_value = value.const_value
 
 
+@op("v_set_unprintable_const", "vi")
+def _v_set_unprintable_const(u, v, i):
+    """A constant whose repr() fails: a proto-backed tensor with truncated / over-long raw_data (what a deserialized
+    malformed model holds).  Nothing but printing it reads the data."""
+    import onnx
+    from onnx_ir import serde
+
+    tp = onnx.TensorProto(name="c_bad", data_type=[1, 7, 11][i % 3], dims=[2], raw_data=[b"\0\0\0", b"\0" * 7, b"\0" * 5][i % 3])
+    u.V(v).const_value = serde.TensorProtoTensor(tp)
+
+
 @op("new_model", "h")
 def _new_model(u, h):
     g = u.G(h)
@@ -655,7 +666,7 @@ def _new_function(u, h, k):
     return f
 
 
-SETTER_OPS = ["n_set_attr", "n_set_fields", "v_set_fields", "v_set_equal", "new_model", "new_function"]
+SETTER_OPS = ["n_set_attr", "n_set_fields", "v_set_fields", "v_set_equal", "v_set_unprintable_const", "new_model", "new_function"]
 DEFAULT_OPS = [k for k in ALPHABET if k not in ("conv_replace_nodes_values",) and k not in SETTER_OPS]
 
 
